@@ -630,6 +630,8 @@ class Exec(Engine):
                 self.do_raise(s_none, "TypeError", stmt.lineno)
             st.assume(znot(coll.x[0]))
             coll = coll.x[1]
+        if coll.t[0] == "seq" and lc.get("ordered"):
+            return self.for_over_seq_ordered(stmt, st, coll, k, lc)
         if coll.t[0] == "seq":
             coll = coerce(coll, ("bag", coll.t[1]))
         if coll.t[0] not in ("set", "bag"):
@@ -690,6 +692,46 @@ class Exec(Engine):
             self.assign(stmt.target, last, ex, stmt)
             for n in tnames:
                 ex.ghost[("unbound", n)] = empty_c
+        out.append(ex)
+        return out
+
+    def for_over_seq_ordered(self, stmt, st, xs, k, lc):
+        """for x in <Seq> with a loop contract marked ordered=True: the elements xs[0], xs[1], ... IN ORDER. The invariant may mention the ghost
+        'idx' = number of elements already processed (0 on entry, len(xs) on exit); an arbitrary iteration processes xs[idx]."""
+        mods = assigned_names(stmt.body)
+        if isinstance(stmt.iter, ast.Name) and (stmt.iter.id in mods or stmt.iter.id in self._target_names(stmt.target)):
+            raise OutOfSubset("sequence modified while iterated")
+        et = xs.t[1]
+        n = z3.Length(xs.x)
+        entry = {k_: deep_copy(v_) for k_, v_ in st.vars.items()}
+        for e, t in self.spec_conj(lc["invariant"], st, {"idx": vint(0)}, entry):
+            self.oblige(st, t, "inv.init", f"loop{k}.inv.init[{e[:50]}]", stmt.lineno)
+        it = st.fork()
+        self.havoc(it, mods | self._target_names(stmt.target))
+        idx = z3.Int(fresh_name("idx"))
+        ex = it.fork()
+        it.assume(z3.And(idx >= 0, idx < n))
+        for e, t in self.spec_conj(lc["invariant"], it, {"idx": vint(idx)}, entry):
+            it.assume(t)
+        self.assign(stmt.target, from_term(et, xs.x[idx]), it, stmt)
+        it.trace.append(f"loop{k}:iter")
+        out = []
+        if feasible(it):
+            self.cover(it, f"loop{k}.body", stmt.lineno)
+            for s in self.run_block(stmt.body, [it]):
+                if s.flow in ("normal", "continue"):
+                    s.flow = "normal"
+                    for e, t in self.spec_conj(lc["invariant"], s, {"idx": vint(idx + 1)}, entry):
+                        self.oblige(s, t, "inv.preserve", f"loop{k}.inv.preserve[{e[:50]}]", stmt.lineno)
+                elif s.flow == "break":
+                    s.flow = "normal"
+                    out.append(s)
+                else:
+                    out.append(s)
+        for e, t in self.spec_conj(lc["invariant"], ex, {"idx": vint(n)}, entry):
+            ex.assume(t)
+        ex.trace.append(f"loop{k}:exit")
+        self.apply_use(lc.get("use_at_exit", []), ex)
         out.append(ex)
         return out
 
